@@ -1,8 +1,9 @@
 (* C12 correspondence: histories executed on the real auth.Authenticator by the Go harness
-   (harness/auth/verif_c12_test.go) are re-run here on the model with vm_compute and the outputs compared.
+   (harness/auth/verif_c12_test.go) are re-run here on the model with vm_compute and the outputs compared;
+   likewise REST histories executed through rest.NewRestTester (harness/auth/verif_c12_rest_test.go) on Rest.v.
 
    The external functions are instantiated by Instance.XC. *)
-From SG Require Export Base.Prelude Base.Bytes C12.AuthN C12.Instance.
+From SG Require Export Base.Prelude Base.Bytes C12.AuthN C12.Instance C12.Rest.
 Open Scope N_scope.
 
 Definition err_eqb (a b : err) : bool :=
@@ -23,13 +24,32 @@ Definition out_eqb (a b : out) : bool :=
   | _, _ => false
   end.
 
+Definition reason_eqb (a b : reason) : bool :=
+  match a, b with
+  | InvalidLogin, InvalidLogin | LoginRequired, LoginRequired
+  | SessionInvalid, SessionInvalid | SessionStale, SessionStale => true
+  | _, _ => false
+  end.
+
+Definition rout_eqb (a b : rout) : bool :=
+  match a, b with
+  | RCode n, RCode m => n =? m
+  | RAuth (Served w), RAuth (Served w') => option_eqb N.eqb w w'
+  | RAuth (Denied r), RAuth (Denied r') => reason_eqb r r'
+  | _, _ => false
+  end.
+
 Inductive case :=
-| CRun (capacity : N) (ops : list op) (observed : list out).
+| CRun (capacity : N) (ops : list op) (observed : list out)
+(* a REST history and the responses the real handlers gave (status codes; for authenticated requests: who the
+   handler ran as, or the reason of the 401) *)
+| CRest (capacity : N) (ops : list rop) (observed : list rout).
 
 (* [step] is the model of the code as it is now (AuthN.cookie_checks_disabled) *)
 Definition check (c : case) : bool :=
   match c with
   | CRun capacity ops observed => list_eqb out_eqb (outs XC (init XC capacity) ops) observed
+  | CRest capacity ops observed => list_eqb rout_eqb (rest_outs XC (rinit XC capacity) ops) observed
   end.
 
 Definition mismatches (cs : list case) : list N := failing check cs.
